@@ -4,8 +4,6 @@ use std::fmt;
 
 use core::hash::{Hash, Hasher};
 
-use itertools::Itertools;
-
 use rustc_ast::ast::{self, UseTreeKind};
 use rustc_span::{
     BytePos, DUMMY_SP, Span,
@@ -255,12 +253,17 @@ fn flatten_use_trees(
 ) -> Vec<UseTree> {
     // Return non-sorted single occurrence of the use-trees text string;
     // order is by first occurrence of the use-tree.
-    use_trees
+    let mut result: Vec<UseTree> = Vec::with_capacity(use_trees.len());
+    for tree in use_trees
         .into_iter()
         .flat_map(|tree| tree.flatten(import_granularity))
         .map(UseTree::nest_trailing_self)
-        .unique()
-        .collect()
+    {
+        if !result.iter().any(|seen| seen.is_repeated_by(&tree)) {
+            result.push(tree);
+        }
+    }
+    result
 }
 
 impl fmt::Debug for UseTree {
@@ -664,6 +667,18 @@ impl UseTree {
             (Some(ref a), Some(ref b)) => is_same_visibility(a, b),
             _ => false,
         }
+    }
+
+    // `other` imports the same path under the same visibility and nothing else tells the two
+    // apart: `UseTree`s compare equal on their paths alone, but an import that has its own
+    // attributes or comments is not a repetition of one that has none or others.
+    fn is_repeated_by(&self, other: &UseTree) -> bool {
+        self == other
+            && self.same_visibility(other)
+            && self.attrs.is_none()
+            && other.attrs.is_none()
+            && !self.contains_comment()
+            && !other.contains_comment()
     }
 
     fn share_prefix(&self, other: &UseTree, shared_prefix: SharedPrefix) -> bool {
